@@ -11,9 +11,11 @@ import (
 	"encoding/binary"
 	"encoding/hex"
 	"encoding/json"
+	"errors"
 	"flag"
 	"fmt"
 	"hash/fnv"
+	"io/fs"
 	"os"
 	"path/filepath"
 	"runtime/debug"
@@ -349,10 +351,33 @@ func safeRun[S any](run func(S) []V, sc S) (vs []V) {
 	defer func() {
 		if p := recover(); p != nil {
 			st := string(debug.Stack())
+			if err, ok := p.(error); ok && harnessFrame(st) {
+				var pe *fs.PathError
+				var le *os.LinkError
+				var se *os.SyscallError
+				if errors.As(err, &pe) || errors.As(err, &le) || errors.As(err, &se) {
+					vs = append(vs, V{Sig: "harness-io:" + panicSite(st), What: fmt.Sprintf("harness I/O error: %v", err)})
+					return
+				}
+			}
 			vs = append(vs, V{Sig: "panic:" + panicSite(st), What: fmt.Sprintf("panic: %v\n%s", p, st)})
 		}
 	}()
 	return run(sc)
+}
+
+// harnessFrame: the function that called panic is harness code (a verif_*_test.go file injected by overlay).
+func harnessFrame(stack string) bool {
+	lines := strings.Split(stack, "\n")
+	for i, l := range lines {
+		if strings.HasPrefix(l, "panic(") {
+			// lines[i+1] is the location of panic itself; the next frame is the caller
+			if i+3 < len(lines) {
+				return strings.Contains(lines[i+3], "/verif_") && strings.Contains(lines[i+3], "_test.go")
+			}
+		}
+	}
+	return false
 }
 
 // panicSite extracts the first non-runtime, non-harness function below the
@@ -433,7 +458,18 @@ func Run[S any](t *testing.T, r *Rec, sp Spec[S]) {
 			r.journal(sp.Name, sc)
 			defer r.clearJournal()
 		}
-		return safeRun(sp.Run, sc)
+		vs := safeRun(sp.Run, sc)
+		// a file-system error of the harness itself (scratch directory gone, disk full ...) says nothing
+		// about the property: inconclusive, not a violation
+		kept := vs[:0]
+		for _, v := range vs {
+			if strings.HasPrefix(v.Sig, "harness-io:") {
+				r.HarnessError("%s: %s", sp.Name, v.What)
+				continue
+			}
+			kept = append(kept, v)
+		}
+		return kept
 	}
 
 	if path := os.Getenv("VERIF_REPLAY"); path != "" {
